@@ -103,7 +103,7 @@ def run(prop, tier, seed, replay):
             reqs.append(f"{ci} histjk {N} {B} " + " ".join(fr(x) for x in counts.ravel()))
         cases.append(case)
 
-    gen = ck.driver("GenDriver", reqs)
+    gen = ck.driver("GenResample", reqs)
     spec = ck.driver("SpecDriver", reqs)
     if spec is None:
         from core import Infra
@@ -221,7 +221,7 @@ def run(prop, tier, seed, replay):
                     ck.add_tie_break("histjk impl vs model", {"diff": d, "request": reqs[ci]})
 
     # covariance / error
-    gcov = ck.driver("GenDriver", cov_reqs)
+    gcov = ck.driver("GenResample", cov_reqs)
     scov = ck.driver("SpecDriver", cov_reqs)
     for i, (cd, smp) in enumerate(cov_cases):
         n, B = smp.shape
